@@ -20,6 +20,7 @@ REGISTRY = {
     "C12": ("p_graphformulas", "C12"),
     "C14": ("p_powerdist", "C14"),
     "C15": ("p_results", "C15"),
+    "C16": ("p_batterystatus", "C16"),
     "C18": ("p_poolmetrics", "C18"),
     "C19": ("p_formulasync", "C19"),
     "C20": ("p_datasourcing", "C20"),
